@@ -322,6 +322,9 @@ class Interp:
                 return Unknown("dangling ref")
             base = fr.locals.get(v.local, Unknown("uninit"))
             return self._project(path, fr, base, v.proj)
+        hk = (v.key(), ())
+        if hk in path.heap:
+            return path.heap[hk]
         return v  # opaque: transparent
 
     def _field(self, path, v, e):
@@ -399,6 +402,8 @@ class Interp:
         path.events.append(("write_opaque", base, tuple(_pk(e) for e in proj), val))
         if len(proj) == 1 and proj[0]["k"] == "field":
             path.heap[(base.key(), ("f", proj[0]["name"]))] = val
+        elif not proj:
+            path.heap[(base.key(), ())] = val
 
     # -- operands / rvalues -----------------------------------------------------
     def operand(self, path, frame, o):
@@ -749,14 +754,14 @@ class Interp:
         for a in args:
             sargs.append(self._snap(path, a))
         res = App(name, sargs, info=fn)
-        for a in args:
-            if isinstance(a, Ref) and a.mut:
-                fr = self.frame_by_id(path, a.fid)
-                if fr is not None:
-                    old = self._project(path, fr, fr.locals.get(a.local, Unknown("uninit")), a.proj)
-                    newv = App("mut:" + name, [old] + [x for x in sargs if x.key() != old.key()])
-                    tgt = fr.locals.get(a.local, Unknown("uninit"))
-                    fr.locals[a.local] = self._write_into(path, fr, tgt, list(a.proj), newv)
+        # anything reachable through a mutable reference handed to opaque code may change
+        for a in _mut_refs(args):
+            fr = self.frame_by_id(path, a.fid)
+            if fr is not None:
+                old = self._project(path, fr, fr.locals.get(a.local, Unknown("uninit")), a.proj)
+                newv = App("mut:" + name, [old] + [x for x in sargs if x.key() != old.key()])
+                tgt = fr.locals.get(a.local, Unknown("uninit"))
+                fr.locals[a.local] = self._write_into(path, fr, tgt, list(a.proj), newv)
         return self._finish_call(path, frame, t, res)
 
     def _std_model(self, name, a):
@@ -897,6 +902,24 @@ class Interp:
         env = self_arg if self_arg is not None else fv
         self._push(path, body, [env] + list(args), t["dest"], t["target"])
         return None
+
+
+def _mut_refs(vals, out=None, depth=0):
+    """Mutable references among `vals`, also inside closure captures / tuples / ADT payloads."""
+    out = [] if out is None else out
+    if depth > 8:
+        return out
+    for v in vals:
+        if isinstance(v, Ref):
+            if v.mut:
+                out.append(v)
+        elif isinstance(v, Closure):
+            _mut_refs(v.caps.values(), out, depth + 1)
+        elif isinstance(v, Tup):
+            _mut_refs(v.elems, out, depth + 1)
+        elif isinstance(v, Variant):
+            _mut_refs(v.fields.values(), out, depth + 1)
+    return out
 
 
 def _has_ref(v, depth=0):
